@@ -28,6 +28,12 @@ var c11Queries = []string{
 	"SELECT a, (SELECT w FROM w WHERE w > ?) AS s FROM t",
 	"SELECT a, (WITH c AS (SELECT p FROM items) SELECT p FROM c) AS s FROM t WHERE a > ?",
 	"SELECT a, FIRST((WITH c AS (SELECT p FROM items WHERE p > ?) SELECT p FROM c)) AS s FROM t",
+	// nested objects spread into the output row, before and after other items
+	"SELECT FUSE(o), a AS ident FROM t WHERE a > ?",
+	"SELECT a AS ident, FUSE(o), a + 1 AS k FROM t WHERE a > ?",
+	"SELECT FUSE(FIRST(items)), a, 'x' AS p FROM t WHERE a > ?",
+	"SELECT FUSE(o) AS f, a AS k FROM t WHERE a > ?",
+	"SELECT FUSE(o), FUSE(FIRST(w)), a AS k FROM t WHERE a > ?",
 	// joins with unmatched rows on either side, with and without aliases (from here: unwrapped only)
 	"SELECT * FROM t LEFT JOIN u ON t.a = u.a WHERE a > ?",
 	"SELECT * FROM t RIGHT JOIN u ON t.a = u.a WHERE a > ?",
@@ -44,7 +50,7 @@ var c11Queries = []string{
 	"SELECT x.a AS k, y.w AS v FROM t x LEFT JOIN u y ON x.a = y.a WHERE x.a > ? ORDER BY k",
 }
 
-const c11FirstJoin = 25
+const c11FirstJoin = 30
 
 var faultAt, faultCalls int
 
@@ -75,6 +81,7 @@ func H_C11_readonly() {
 		r["dup"] = []any{r["a"], float64(1), r["a"], float64(2), float64(1), float64(3)}
 		// a nested table whose rows have a single key spelled like the table
 		r["w"] = []any{Map{"w": r["a"]}, Map{"w": float64(3)}}
+		r["o"] = Map{"k": r["a"], "z": float64(9)}
 		r["grid"] = []any{[]any{r["a"], float64(1), float64(2)}, []any{float64(3), r["a"], float64(5)}, []any{float64(6), float64(7), float64(8)}}
 	}
 	if qi >= c11FirstJoin {
